@@ -26,6 +26,7 @@ fn fields(ctor: &str) -> Option<Vec<&'static str>> {
         "Expression_BinaryOperator" => vec!["lhs", "binop", "rhs"],
         "Expression_TypeAssertion" => vec!["expression", "type_assertion"],
         "TokenType_Symbol" => vec!["symbol"],
+        "TokenType_Identifier" => vec!["identifier"],
         "TokenType_StringLiteral" => vec!["literal", "multi_line_depth", "quote_type"],
         _ => return None,
     })
@@ -127,6 +128,8 @@ fn expr(e: &Expr) -> R<String> {
             // comparisons of naturals (byte offsets)
             BinOp::Mul(_) => format!("(Nat.mul {} {})", expr(&b.left)?, expr(&b.right)?),
             BinOp::Add(_) => format!("(Nat.add {} {})", expr(&b.left)?, expr(&b.right)?),
+            // `x == "text"` on strings
+            BinOp::Eq(_) if matches!(&*b.right, Expr::Lit(ExprLit { lit: Lit::Str(_), .. })) => format!("(str_eqb {} {})", expr(&b.left)?, expr(&b.right)?),
             // `x == Enum::Variant`
             BinOp::Eq(_) if matches!(&*b.right, Expr::Path(p) if p.path.segments.len() >= 2) => is_match(&expr(&b.left)?, &expr(&b.right)?),
             BinOp::Lt(_) => format!("(Nat.ltb {} {})", expr(&b.left)?, expr(&b.right)?),
@@ -136,7 +139,7 @@ fn expr(e: &Expr) -> R<String> {
             _ => return Err(format!("binary operator outside subset: {}", b.to_token_stream())),
         },
         Expr::Call(c) if c.args.len() == 1 && matches!(&*c.func, Expr::Path(p) if path_name(&p.path) == "String_from") => expr(&c.args[0])?,
-        Expr::MethodCall(m) if m.method == "into" && m.args.is_empty() => expr(&m.receiver)?,
+        Expr::MethodCall(m) if (m.method == "into" || m.method == "to_string") && m.args.is_empty() => expr(&m.receiver)?,
         // `self.config().field` as well as `ctx.config().field`
         Expr::Call(c) => {
             let mut a = vec![];
@@ -161,7 +164,9 @@ fn expr(e: &Expr) -> R<String> {
         // a panic is a distinguished value of the mirrored result type (FmAst.rs_unreachable); the theorems show it is never returned
         Expr::Macro(m) if m.mac.path.is_ident("unreachable") => "rs_unreachable".to_string(),
         // accessors mirrored as functions of FmAst.v; `.iter().next()` is the head of a list
-        Expr::MethodCall(m) if m.args.is_empty() && ["prefix", "variables", "lhs", "start_position", "end_position", "bytes"].contains(&m.method.to_string().as_str()) => format!("({} {})", m.method, expr(&m.receiver)?),
+        Expr::MethodCall(m) if m.args.is_empty() && ["prefix", "variables", "lhs", "start_position", "end_position", "bytes", "suffixes"].contains(&m.method.to_string().as_str()) => format!("({} {})", m.method, expr(&m.receiver)?),
+        // `.name()` would be captured by a Rust variable called `name`: the mirror calls the projection method_name
+        Expr::MethodCall(m) if m.args.is_empty() && m.method == "name" => format!("(method_name {})", expr(&m.receiver)?),
         Expr::MethodCall(m) if m.args.is_empty() && m.method == "iter" => expr(&m.receiver)?,
         Expr::MethodCall(m) if m.args.is_empty() && m.method == "next" => format!("(hd_error {})", expr(&m.receiver)?),
         Expr::Macro(m) if m.mac.path.is_ident("matches") => {
@@ -206,14 +211,25 @@ fn block(stmts: &[Stmt]) -> R<String> {
 }
 /// `let x = e;` with a plain identifier and no else branch
 fn local_stmt(l: &Local, k: &str) -> R<String> {
+    // `let PAT = e else { return x; };`
+    if let Some(init) = &l.init {
+        if let Some((_, div)) = &init.diverge {
+            let alt = match &**div {
+                Expr::Block(b) => block(&b.block.stmts)?,
+                other => return Err(format!("let-else branch outside subset: {}", other.to_token_stream())),
+            };
+            return Ok(format!("(match {} with {} => {} | _ => {} end)", expr(&init.expr)?, pat(&l.pat)?, k, alt));
+        }
+        // `let x = e?;` on an Option
+        if let (Pat::Ident(i), Expr::Try(t)) = (&l.pat, &*init.expr) {
+            return Ok(format!("(match {} with Some {} => {} | None => None end)", expr(&t.expr)?, i.ident, k));
+        }
+    }
     let name = match &l.pat {
         Pat::Ident(i) if i.subpat.is_none() && i.by_ref.is_none() && i.mutability.is_none() => i.ident.to_string(),
         other => return Err(format!("let pattern outside subset: {}", other.to_token_stream())),
     };
     let init = l.init.as_ref().ok_or("let without initialiser")?;
-    if init.diverge.is_some() {
-        return Err("let-else outside subset".into());
-    }
     match expr(&init.expr) {
         Ok(e) => Ok(format!("(let {} := {} in {})", name, e, k)),
         // a binding that the translated continuation never reads (it feeds an untranslated `for` loop) is dropped;
@@ -308,6 +324,8 @@ struct Kernel {
     /// (Rust function, Gallina header: name, binders, struct argument, result type), in dependency order
     funcs: &'static [(&'static str, &'static str)],
     module: &'static str,
+    /// the module of coq/theories that mirrors the types this kernel inspects
+    mirror: &'static str,
 }
 
 const KERNELS: &[Kernel] = &[
@@ -316,6 +334,7 @@ const KERNELS: &[Kernel] = &[
         name: "check_excess_parentheses",
         funcs: &[("check_excess_parentheses", "Fixpoint check_excess_parentheses (internal_expression : Expression) (context : ExpressionContext) {struct internal_expression} : bool :=")],
         module: "CheckExcess",
+        mirror: "FmAst",
     },
     Kernel {
         file: "src/formatters/block.rs",
@@ -325,12 +344,14 @@ const KERNELS: &[Kernel] = &[
             ("check_stmt_requires_semicolon", "Definition check_stmt_requires_semicolon (stmt : Stmt) (next_stmt : option (Stmt * option TokenReference)) : bool :="),
         ],
         module: "SemiRule",
+        mirror: "FmAst",
     },
     Kernel {
         file: "src/context.rs",
         name: "should_format_node",
         funcs: &[("should_format_node", "Definition should_format_node (formatting_disabled : bool) (for_loop_1 : option FormatNode) (range : option FormatRange) (node : NodePos) : FormatNode :=")],
         module: "ShouldFormat",
+        mirror: "FmAst",
     },
     Kernel {
         file: "src/context.rs",
@@ -344,12 +365,24 @@ const KERNELS: &[Kernel] = &[
             ("should_omit_table_parens", "Definition should_omit_table_parens (no_call_parentheses : bool) (call_parentheses : CallParenType) : bool :="),
         ],
         module: "CtxOptions",
+        mirror: "FmAst",
     },
     Kernel {
         file: "src/formatters/general.rs",
         name: "quote_choice",
         funcs: &[("get_quote_to_use", "Definition get_quote_to_use (quote_style : QuoteStyle) (literal : list Ascii.ascii) : StringLiteralQuoteType :=")],
         module: "QuoteChoice",
+        mirror: "FmAst",
+    },
+    Kernel {
+        file: "src/sort_requires.rs",
+        name: "require_kind",
+        funcs: &[
+            ("extract_identifier_from_token", "Definition extract_identifier_from_token (token : TokenReference) : option (list Ascii.ascii) :="),
+            ("get_expression_kind", "Fixpoint get_expression_kind (expression : Expression) {struct expression} : option GroupKind :="),
+        ],
+        module: "RequireKind",
+        mirror: "FmAstReq",
     },
 ];
 
@@ -598,9 +631,10 @@ fn main() {
             let src = std::fs::read_to_string(&path).map_err(|e| format!("{}: {}", path, e))?;
             let f = parse_file(&src).map_err(|e| format!("{}: {}", path, e))?;
             let mut text = format!(
-                "(* GENERATED by rs2v from {} :: {} -- do not edit; regenerated on every run *)\nFrom Coq Require Import List Ascii.\nFrom SV Require Import FmAst.\n",
+                "(* GENERATED by rs2v from {} :: {} -- do not edit; regenerated on every run *)\nFrom Coq Require Import List Ascii.\nFrom SV Require Import {}.\n",
                 k.file,
-                k.funcs.iter().map(|f| f.0).collect::<Vec<_>>().join(", ")
+                k.funcs.iter().map(|f| f.0).collect::<Vec<_>>().join(", "),
+                k.mirror
             );
             for (name, header) in k.funcs {
                 let func = find_body(&f, name).ok_or(format!("function {} not found in {}", name, k.file))?;
